@@ -422,7 +422,7 @@ def sec_points(g):
     g.ck("pt.coerce_in", x, "p.coerce_in(kel_pt)"), g.ck("pt.coerce_as", x, "p.coerce_as(kel_pt)")
     g.ck("pt.coerce_in.rep", x, "p.coerce_in<short>(kel_pt)"), g.ck("pt.coerce_as.rep", x, "p.coerce_as<float>(kel_pt)")
     g.ck("pt.in.milli", 1000 * x, "p.in(au::milli(kel_pt))")
-    g.ck("pt.coerce_in.cel", x - 274, "p.coerce_in(cel_pt)")          # x K = (x - 273.15) C, truncated toward zero (x > 274)
+    g.ck("pt.coerce_in.cel", c_div(100 * x - 27315, 100), "p.coerce_in(cel_pt)")          # x K = (x - 273.15) C, truncated toward zero
     g.ck("pt.rep_cast", x, "au::rep_cast<double>(p)")
     g.ck("pt.make_quantity_point", y, "au::make_quantity_point<Kel>(I<int>(%d))" % y)
     g.raw("{ au::QuantityPoint<Kel, int> dflt{}; CK(\"%s\", 0, dflt); }" % g.tag("pt.default"))
